@@ -12,13 +12,13 @@ def hook_commits():
 
 # id: (category, technique, level text, level note, engine, design_ref)
 CHECKS = {
- "C01": ("fault_enumeration", "crash-image enumeration over simulated VFS + model-state oracle",
-         "Every mutating I/O boundary of each generated workload is a crash point; for each, kill and power-loss images (subsets of un-fsynced 8-byte pieces, pending directory operations, file lengths; exhaustive for small pending sets in thorough) are recovered by the real wal+segment code and the whole observable state must equal a legal model state; nested to depth 2 (crash inside recovery / continuation). Workloads are sampled, crash points and image variants are enumerated.",
+ "C01": ("fault_enumeration", "crash-image enumeration over simulated VFS + model-state oracle; strace trace replay of the production stack into power-loss images",
+         "Every mutating I/O boundary of each generated workload is a crash point; for each, kill and power-loss images (subsets of un-fsynced 8-byte pieces, pending directory operations, file lengths; exhaustive for small pending sets in thorough) are recovered by the real wal+segment code and the whole observable state must equal a legal model state; nested to depth 2 (crash inside recovery / continuation). Workloads are sampled, crash points and image variants are enumerated. Second engine (trace replay): a child runs a workload on the production fs package and real BoltDB under strace with full write payloads; the parent rebuilds per-file durable/pending state from the trace, derives power-loss images at every syscall boundary (all / none / random subsets of the writes not yet followed by fsync, torn at 512-byte boundaries; every prefix of the pending directory operations), opens each with the production code and judges it against the acknowledgements seen in the trace - the only place BoltDB's own commit protocol and the metadata-DB initialisation are put under power loss.",
          "simfs crash model (calibrated from the production fs package); simmeta commits atomic+durable; harness model", "E1 crashsim", "4 C01"),
  "C02": ("fault_enumeration", "crash-chain enumeration (crash, recover, retry prefix, crash) + exact-state oracle",
          "As C01 with chains: after recovering from a torn batch the continuation re-submits a prefix of it (same sizes) so stale frames of the torn batch sit behind the new commit, then crashes again; low indexes and frame-shaped payloads; recovered state must equal one legal state exactly (nothing fabricated, torn or half-applied).",
          "same as C01", "E1 crashsim", "4 C02"),
- "C03": ("fault_enumeration", "crash-image enumeration + fixed usability continuation after every recovery",
+ "C03": ("fault_enumeration", "crash-image enumeration + fixed usability continuation after every recovery; strace trace replay of the production stack into power-loss images (incl. first-Open metadata initialisation)",
          "After recovery of every crash image a fixed continuation (appends forcing rotation, head and tail truncation, stable set/get, clean reopen, append) must succeed and match the model; geometries where nearly every append seals the segment.",
          "same as C01", "E1 crashsim", "4 C03"),
  "C04": ("fault_enumeration", "crash-image enumeration over truncation-heavy workloads + all-or-nothing oracle",
@@ -63,9 +63,9 @@ CHECKS = {
  "C14": ("exploration", "directed schedules through hook points (method x parking point x Close position) + stress, outcome classification, race detector",
          "Every LogStore/StableStore method parked at every hook point on its path while Close runs (or Close parked while the method runs); results must be correct or ErrClosed, never panic / other error / deadlock (goroutine blocked inside raft-wal after everything was released); after Close: all methods ErrClosed, second Close nil, rotation goroutine exited, no handles open, reopen shows everything acknowledged.",
          "hook points added under build tag verif; 15s watchdog whose expiry is a violation only with the goroutine blocked inside raft-wal", "E2 sched", "4 C14"),
- "C08": ("exploration", "lock-step stable-map model + per-key porcupine register check under concurrency + SIGKILL of child processes on real BoltDB",
+ "C08": ("exploration", "lock-step stable-map model + per-key porcupine register check under concurrency + SIGKILL of child processes on real BoltDB + strace trace replay into power-loss images of wal-meta.db",
          "Sequential Set/Get/SetUint64/GetUint64 over key and value classes interleaved with all log op templates and reopens (stable model and log bounds compared after every step, simfs and real BoltDB); concurrent per-key register histories on real BoltDB while a writer appends/rotates/truncates, checked by porcupine partitioned by key under the race detector; child processes doing Set+StoreLogs on the production stack killed with SIGKILL at random acknowledgement counts, three lifetimes per directory.",
-         "BoltDB key limits; SIGKILL is process death (page cache survives), power loss of wal-meta.db is not modelled here (bbolt trusted)", "E4 model + E3 proc", "4 C08"),
+         "BoltDB key limits; SIGKILL is process death (page cache survives); power loss of wal-meta.db is covered by the trace-replay part (writes not yet followed by fsync kept/dropped/torn at 512-byte boundaries) and the strace rule R7", "E4 model + E3 proc", "4 C08"),
  "C09": ("exploration", "independent README-only encoder/decoder: decode, compare with acknowledged batches, re-encode byte-for-byte; golden fixtures of the pinned commit",
          "After random workloads every segment file is decoded by internal/fmtspec (written from README.md only), compared with the harness's record of acknowledged batches and the codec's payloads, checked against file name and metadata (sealed <=> index frame, IndexStart, index offsets) and re-encoded byte-for-byte; the BoltDB record is read directly with bbolt for the documented JSON fields; 12 golden directories written by the pinned commit must open with identical contents and stay usable.",
          "README reading: first commit CRC includes the file header; bucket name wal-meta per the property anchors", "E5 fmtspec", "4 C09"),
@@ -115,6 +115,7 @@ def main():
             {"name": "E6 mutate", "path": "checks/c11.go", "serves_properties": ["C11"], "kind_free_text": "corruption operators over valid directories with budgets"},
             {"name": "E5 fmtspec", "path": "internal/fmtspec, checks/c09.go, golden/", "serves_properties": ["C09"], "kind_free_text": "independent implementation of the documented on-disk format + fixtures from the pinned commit"},
             {"name": "E3 proc+strace", "path": "internal/proc, checks/c07.go (and the SIGKILL part of checks/c08.go)", "serves_properties": ["C07", "C08"], "kind_free_text": "production stack in child processes, strace capture and parser, trace monitor, self-kill points"},
+            {"name": "E3 trace replay", "path": "checks/replay.go, internal/proc", "serves_properties": ["C01", "C03", "C04", "C08"], "kind_free_text": "strace -xx capture of a child on real fs + BoltDB, replayed into durable/pending file and directory state; power-loss images opened by the production code and judged against the acknowledgements in the trace"},
             {"name": "E1 crashsim", "path": "internal/crashsim, internal/simfs", "serves_properties": ["C01", "C02", "C03", "C04", "C13"], "kind_free_text": "production wal+segment over a crash/fault-simulating VFS+MetaStore; snapshots at every I/O boundary; crash images; model oracle"},
         ],
         "checks": checks,
